@@ -100,22 +100,25 @@ class Stack(object):
         rms = v ** 2 + (inner ** 2 if inner is not None else 0.0)
         return rms ** 0.5
 
-    def iter(self, i=None):
-        for L in self.layers:
+    # `level` = the layer the call is made on (0 = outermost): a call on an inner layer reaches that layer and the ones below it only,
+    # so the layers' iteration counts may differ; iter() without an index advances every reached layer by one from ITS OWN count
+    def iter(self, i=None, level=0):
+        for L in self.layers[level:]:
             if i is None: L.n += 1
             else: L.n = i
 
-    def iteration(self):
-        return self.layers[0].n
+    def iteration(self, level=0):
+        return self.layers[level].n
 
-    def clear(self):
-        for L in self.layers:
+    def clear(self, level=0):
+        for L in self.layers[level:]:
             L.n = 0
             L.y = []
 
-    def store(self, x, i=None):
-        """only lagrange layers keep multipliers; index defaults to the current iteration"""
-        for L in self.layers:
+    def store(self, x, i=None, level=0):
+        """only lagrange layers keep multipliers; the index defaults to the current iteration of the first lagrange layer reached,
+        which hands the resolved index on to the layers below it"""
+        for L in self.layers[level:]:
             if L.ptype.startswith('lagrange'):
                 try:
                     y = L.cond(x)
@@ -126,5 +129,5 @@ class Stack(object):
                 if i >= l: L.y.extend([0.0] * (i - l) + [y])
                 else: L.y[i] = y
 
-    def stored(self):
-        return list(self.layers[0].y)
+    def stored(self, level=0):
+        return list(self.layers[level].y)
